@@ -80,6 +80,53 @@ Theorem clustering_coefficient_def (g : graph) :
 Proof. exact (TopologyProofs.clustering_coefficient_def g). Qed.
 Print Assumptions clustering_coefficient_def.
 
+(** Cliques, level L1 (count k S = sum_{u in S} count (k-1) (N+(u) /\ S), base case k = 2 as coded):
+    on any DAG [d] that orients a symmetric relation [adj] on the nodes < n by an injective key [ord]
+    (each row of d lists, without repetition, exactly the neighbours of larger key), the recursion returns
+    the number of k-subsets of the nodes that are pairwise adjacent, for every k >= 2. *)
+Theorem cliques_L1_exact (adj : nat -> nat -> bool) (ord : nat -> nat) (d : graph) (k : nat) :
+  dag_of adj ord (List.length d) d -> 2 <= k ->
+  count_cliques_from_dag_L1 d k = cliques_spec adj (List.length d) k.
+Proof. exact (TopologyProofs.cliques_L1_exact adj ord d k). Qed.
+Print Assumptions cliques_L1_exact.
+
+(** count_cliques (L1) on an undirected graph — symmetric pattern with duplicate-free rows — is the
+    number of k-cliques for every k >= 2, whatever permutation np.argsort(core values) returns (the code
+    passes that permutation as [order] to get_dag: node i gets key argsort[i]; any injective key works).
+    The in-place ListingBox kernel (L0, [count_cliques]) is tied to L1 by the correspondence run only:
+    the harness evaluates both on every case and requires equality. *)
+Theorem count_cliques_L1_exact (g : graph) (k : nat) (argsort : list nat) :
+  wf_graph g -> (forall u, NoDup (row g u)) -> (forall u v, In v (row g u) -> In u (row g v)) ->
+  NoDup argsort -> List.length argsort = List.length g -> 2 <= k ->
+  count_cliques_L1 g k argsort = Ok (cliques_spec (adjb g) (List.length g) k).
+Proof. exact (TopologyProofs.count_cliques_L1_exact g k argsort). Qed.
+Print Assumptions count_cliques_L1_exact.
+
+(** MinHeap (L0), partial: IF the heap invariant holds ([val]/[pos] inverse on the live part, every live
+    entry at least its parent, parent i = (i-1)//2), pop_min returns the root and the root has minimum
+    score among the live entries. Missing (hence _partial): preservation of [heap_ok] by insert_key,
+    decrease_key, pop_min/min_heapify, and the refinement compute_core (L0) -> peel (L1); the harness
+    evaluates [core_heap_inv] (the executable invariant, sound by heap_ok_b_sound, checked before every
+    pop) and the L0 / L1 / implementation labels on every case instead. *)
+Theorem heap_pop_is_min_partial (h : heap) (scores : list Z) :
+  heap_ok h scores -> 0 < h_size h ->
+  let m := fst (pop_min h scores) in
+  m = nthn (h_val h) 0 /\
+  forall i, i < h_size h -> (nthz scores m <= nthz scores (nthn (h_val h) i))%Z.
+Proof. exact (TopologyProofs.heap_pop_is_min_partial h scores). Qed.
+Print Assumptions heap_pop_is_min_partial.
+
+Theorem heap_ok_b_sound (h : heap) (scores : list Z) : heap_ok_b h scores = true -> heap_ok h scores.
+Proof. exact (TopologyProofs.heap_ok_b_sound h scores). Qed.
+Print Assumptions heap_ok_b_sound.
+
+(** A popped node keeps its stale pos = 0 (the code never clears it): decrease_key on it is a no-op
+    (pos < size passes, but the loop guard starts with pos != 0). *)
+Theorem decrease_key_stale_noop (h : heap) (i : nat) (scores : list Z) :
+  nthn (h_pos h) i = 0 -> decrease_key h i scores = h.
+Proof. exact (TopologyProofs.decrease_key_stale_noop h i scores). Qed.
+Print Assumptions decrease_key_stale_noop.
+
 (** Non-vacuity: a 5-node graph (triangle 0-1-2 with a tail 2-3-4) on which every model computes,
     an admissible peeling sequence exists, and a non-trivial schedule satisfies the hypothesis. *)
 Example c11_nonvacuous :
@@ -91,11 +138,37 @@ Example c11_nonvacuous :
   peel g [4; 3; 0; 1; 2] = Some [2; 2; 2; 1; 1] /\
   compute_core g = Some [2; 2; 2; 1; 1]%Z /\
   clustering_coefficient g = Some (1 # 2)%Q /\
-  count_cliques g 3 [4; 3; 0; 1; 2] = Ok 1 /\ count_cliques_L1 g 2 [4; 3; 0; 1; 2] = Ok 5.
+  count_cliques g 3 [4; 3; 0; 1; 2] = Ok 1 /\ count_cliques_L1 g 2 [4; 3; 0; 1; 2] = Ok 5 /\
+  cliques_spec (adjb g) 5 3 = 1 /\ core_heap_inv g = true.
 Proof.
   cbv zeta. repeat split; try reflexivity.
   - vm_compute. apply Permutation_cons_app with (l1 := [0; 1; 2; 3]) (l2 := []). simpl.
     apply perm_skip. apply Permutation_cons_app with (l1 := [1]) (l2 := [3]). simpl.
     apply perm_swap.
   - intros v. apply tri_dag_sorted.
+Qed.
+
+(** The hypotheses of count_cliques_L1_exact are met by the same graph. *)
+Example c11_nonvacuous_cliques :
+  let g := [[1; 2]; [0; 2]; [0; 1; 3]; [2; 4]; [3]] in
+  wf_graph g /\ (forall u, NoDup (row g u)) /\ (forall u v, In v (row g u) -> In u (row g v)) /\
+  NoDup [4; 3; 0; 1; 2] /\ List.length [4; 3; 0; 1; 2] = List.length g.
+Proof.
+  cbv zeta. split; [|split; [|split; [|split; [|reflexivity]]]].
+  - intros u v H. do 5 (destruct u as [|u]; [simpl in H; simpl; intuition lia|]).
+    destruct u; simpl in H; contradiction.
+  - intros u. do 5 (destruct u as [|u]; [unfold row; simpl; repeat constructor; simpl; intuition discriminate|]).
+    destruct u; unfold row; simpl; constructor.
+  - intros u v H. do 5 (destruct u as [|u]; [simpl in H; intuition (subst; simpl; tauto)|]).
+    destruct u; simpl in H; contradiction.
+  - repeat constructor; simpl; intuition discriminate.
+Qed.
+
+(** The heap invariant is met by the heap compute_core builds on that graph (5 live entries). *)
+Example c11_nonvacuous_heap :
+  let scores := [2; 2; 3; 2; 1]%Z in
+  let h := fold_left (fun mh i => insert_key mh i scores) (seq 0 5) (heap_init 5) in
+  heap_ok h scores /\ h_size h = 5 /\ fst (pop_min h scores) = 4.
+Proof.
+  cbv zeta. split; [apply TopologyProofs.heap_ok_b_sound; reflexivity|]. split; reflexivity.
 Qed.
